@@ -713,6 +713,10 @@ class Interp:
         element of X (each element sees its own mask value), so any spelling of the predicate is read the same way -
         isfinite(X), abs(X) <= finfo.max, (X > -inf) & (X < inf) ..."""
         m, ae, be = c.args
+        if isinstance(m, ast.Name) and ("<maskdef>" + m.id) in env and env["<maskdef>" + m.id].kind == "maskdef":
+            expr, srcs = env["<maskdef>" + m.id].items
+            if all(x in env and env[x].vid == vid for x, vid in srcs.items()):
+                m = expr
         names = {n.id for n in ast.walk(m) if isinstance(n, ast.Name) and n.id in env and env[n.id].kind == "num" and env[n.id].arr}
         if len(names) != 1:
             return None
@@ -904,6 +908,11 @@ class Interp:
                         self.store_subscript(t, v, env, depth)
                     else:
                         self.bind(t, v, env)
+                # `m = isfinite(x)`: remember the defining expression of a mask local (and which value of x it was computed from), so that
+                # where(m, x, c) is read exactly like where(isfinite(x), x, c)
+                if len(st.targets) == 1 and isinstance(st.targets[0], ast.Name) and v.kind == "bool":
+                    srcs = {n.id: env[n.id].vid for n in ast.walk(st.value) if isinstance(n, ast.Name) and n.id in env and env[n.id].kind == "num"}
+                    env["<maskdef>" + st.targets[0].id] = V("maskdef", items=(st.value, srcs))
                 continue
             if isinstance(st, ast.AugAssign) and isinstance(st.target, ast.Name):
                 cur = env.get(st.target.id, OPAQUE)
